@@ -100,10 +100,10 @@ def main():
         for u in my_units:
             o, f, p = u.generate(os.path.join(work, u.name))
             obs += o; funcs += f; problems += p
-    budget = a.budget or (60 if tier == 'thorough' else 30)
+    budget = a.budget or (120 if tier == 'thorough' else 60)
     def progress(i, r):
         if a.v and r['kind'] != 'smoke' and r['verdict'] != 'unsat': print('   ', r['verdict'], r['tries'], r['name'][:150], flush=True)
-    results = solve.discharge_all(obs, ledger, budget=budget, smoke_budget=(4 if tier == 'thorough' else 1.5), thorough=(tier == 'thorough'), progress=progress)
+    results = solve.discharge_all(obs, ledger, budget=budget, smoke_budget=(4 if tier == 'thorough' else 1.5), thorough=(tier == 'thorough'), progress=progress, jobs=max(2, (os.cpu_count() or 4) - 3))
     by_name = {o['name']: o for o in obs}
     proved, refuted, undecided, vacuous, unreachable = [], [], [], [], []
     for r in results:
